@@ -16,7 +16,7 @@ t = time.time()
 m = caldrv.run_sharded(drv, ch.path, mode, lo, hi, step, args)
 print("driver %.1fs, evaluations %d, keys %d" % (time.time() - t, sum(v["n"] for v in m.values()), len(m)))
 for k, v in sorted(m.items()):
-    if v["bad"]:
+    if v["bad"] and not caldrv.tail_collapse(k, v):
         print(k, v["n"], v["bad"], ch.fmtF(v["min"]), ch.fmtF(v["max"]), v["s"][:2])
 if "--suite" in sys.argv:
     p = core.run(["make", "-k", "check"], cwd=b.root, timeout=1200)
